@@ -16,7 +16,7 @@ pub fn resolve(w: &World, from: u8, name: &str, excluding: Option<usize>) -> Opt
     }
     if best.is_some() { return best; }
     // 2. conftest walk, nearest first: own definition, else a fixture it imports (from M)
-    let levels: &[u8] = match dir_of(from) { 1 => &[C1, C0], 2 => &[S, C0], 0 => &[C0], _ => &[] };
+    let levels: &[u8] = match dir_of(from) { 1 => &[C1, C0], 2 => &[S, C0], 0 => &[C0], 4 => &[C2, C1, C0], _ => &[] };
     for &c in levels {
         if !w.has_file(c) { continue; }
         // several definitions of one name in one conftest: python rebinding — the last one wins
@@ -50,9 +50,10 @@ pub fn may_be_visible(w: &World, from: u8, i: usize) -> bool {
     if f == from { return true; }
     match f {
         C0 => true,
-        C1 => dir_of(from) == 1,
+        C1 => dir_of(from) == 1 || dir_of(from) == 4,
+        C2 => dir_of(from) == 4,
         S => dir_of(from) == 2,
-        M => (w.imp_c1.on && w.has_file(C1) && dir_of(from) == 1) || (w.imp_c0.on && w.has_file(C0)),
+        M => (w.imp_c1.on && w.has_file(C1) && (dir_of(from) == 1 || dir_of(from) == 4)) || (w.imp_c0.on && w.has_file(C0)),
         P | V => true,
         _ => false,
     }
